@@ -90,6 +90,10 @@ C10Step(m, o) ==
                        /\ \E i \in DOMAIN o.args.updates :
                              /\ o.args.updates[i].id = o.pre.id /\ o.args.updates[i].st = "D"
                              /\ \A j \in 1..(i - 1) : Addr(o.args.updates[j].id) # Addr(o.pre.id)
+        \* ... or a bare TurnUndead addressed to the current identity, whoever sent it (active member or one held as
+        \* Down) and whatever notify_down_members says on this side
+        turnUndead == /\ DataProcessed(o) /\ o.res = "Ok" /\ o.args.h.msg.k = "TurnUndead" /\ o.args.h.dst = o.pre.id
+                      /\ o.args.mem = <<>> /\ o.args.items = <<>> /\ ~m.dead /\ o.hpre.conn # "U"
         \* a suspicion at the maximum incarnation cannot be refuted: renew or become defunct
         unrefutable == /\ o.call = "apply_many" /\ o.res = "Ok" /\ ~m.dead /\ o.hpre.conn # "U"
                        /\ \E i \in DOMAIN o.args.updates :
@@ -116,6 +120,8 @@ C10Step(m, o) ==
              \cup V(\A i \in certain : o.hpost.inc > i, "processed-suspicion-but-incarnation-not-above-it")
              \* own death
              \cup V(\A n \in rejoins : Wins(n.id, o.pre.id) \/ n.id = o.post.id, "Rejoin-with-non-winning-identity")
+             \cup V(turnUndead => (HasNotif(o.out, "Defunct") \/ (rejoins # {} /\ idChanged)),
+                    "told-to-be-down-by-TurnUndead-but-neither-renewed-nor-defunct")
              \cup V(downCertain =>
                        \/ (HasNotif(o.out, "Defunct") /\ o.hpost.conn = "U")
                        \/ (rejoins # {} /\ idChanged /\ Wins(o.post.id, o.pre.id)
